@@ -547,6 +547,15 @@ class RowMajor:
 
             self._ravel2, self._unravel2 = ravel2, unravel2
             return
+        if k == 2 and concrete[0] is None and concrete[1] is not None and 1 <= concrete[1] <= 64:
+            # (n, C) with a small concrete C: p = i * C + c, (i, c) = (p div C, p mod C): linear arithmetic
+            C, n = concrete[1], self.dims[0]
+            self.k = -2
+            self.N = z3.simplify(n * z3.IntVal(C))
+            self._ravel2 = lambda idx: idx[0] * z3.IntVal(C) + idx[1]
+            self._unravel2 = lambda p: [p / z3.IntVal(C), p % z3.IntVal(C)]
+            ctx.memo.setdefault("products", {})[self.N.hash()] = list(self.dims)
+            return
         name = ctx.fresh("rm")
         # if all but one dims are concrete 1, identity as well -- keep generic otherwise
         if all(c is not None for c in concrete):
